@@ -38,7 +38,8 @@ package index
 // ---- _id lookups (property C02) ----
 // Only string-equals and stringArray-containsAny are accepted; every id that is looked up is one
 // of the requested ids, and a node id enters the answer only when the point store found that id
-// (an unknown id is skipped) and is the node id the point store reported for it.
+// (an unknown id is skipped) and is the node id the point store reported for it; every requested id
+// is looked up - an unknown id does not end the lookup of the ids after it.
 //@ func (indexManager).searchById
 //@   property C02
 //@   safety -overflow -nil
@@ -46,10 +47,13 @@ package index
 //@   ensures q.String == nil && q.StringArray != nil && q.StringArray.Operator != "containsAny" ==> err != nil
 //@   ensures q.String == nil && q.StringArray == nil ==> err != nil
 //@   ensures err == nil ==> result0 != nil && len(result1) == 0
+//@   ensures err == nil && q.String != nil ==> ncalls(GetPointNodeIdByUUID) == 1
+//@   ensures err == nil && q.String == nil ==> ncalls(GetPointNodeIdByUUID) == len(q.StringArray.Value)
 //@   before Parse requires (q.String != nil && arg0 == q.String.Value) || (q.String == nil && q.StringArray != nil && exists(j, 0, len(q.StringArray.Value), q.StringArray.Value[j] == arg0))
 //@   before GetPointNodeIdByUUID requires callres(Parse, 1, 1) == nil && arg1 == callres(Parse, 1, 0)
 //@   before Add requires callres(GetPointNodeIdByUUID, 1, 1) == nil && arg1 == callres(GetPointNodeIdByUUID, 1, 0)
 //@   loop 1 invariant rangeindex >= -1 && rangeindex < len(ids) && rSet != nil
+//@   loop 1 invariant ncalls(GetPointNodeIdByUUID) == rangeindex + 1
 //@   loop 1 invariant (q.String != nil && len(ids) == 1 && ids[0] == q.String.Value) || (q.String == nil && q.StringArray != nil && ids == q.StringArray.Value)
 
 // The query dispatcher as seen by its callers (trusted frame, body not verified here: it fans out
